@@ -6,12 +6,15 @@ from harness.gen import sobol as gen_sobol
 from harness.pyx import drift
 
 ID = "C20"
-LEAN_TARGETS = ["ChmpyVerif.Props.C20", "ChmpyVerif.Props.C20Strat", "ChmpyVerif.Props.C20Net"]
+LEAN_TARGETS = ["ChmpyVerif.Props.C20", "ChmpyVerif.Props.C20Strat", "ChmpyVerif.Props.C20Net", "ChmpyVerif.Props.C20Shape"]
 T = "ChmpyVerif.Props.C20."
 THEOREMS = [T + n for n in ("buildV_prefix", "batch_eq_single", "sobol_in_unit", "table_premise", "dirnum_lowbit",
                             "front_end_dispatch", "kgf_in_unit", "kgf_batch_eq_single",
                             "xSeq_second_half", "stratified_of_triangular", "stratified_onto", "sobol_coordinate_stratified",
                             "maskBlock_spec", "net_check", "sobol_net")]
+# shapes: a window yields stop+1-start rows of D coordinates; the batch IS the list of single points
+THEOREMS += [T + n for n in ("sobolBatch_length", "sobolBatch_row_length", "sobol_length", "sobolBatch_eq_map_single", "kgfBatch_length", "kgf_length",
+                             "kgfBatch_eq_map_single")]
 TRUSTED = [
     "translator harness/gen/sobol.py (rows 0..1001 of _sobol_parameters.npz -> Gen/Sobol*.lean)",
     "hand model Model/Sobol.lean of _sobol.pyx on naturals mod 2^32 (the two L<=s / else branches merged into one incremental rule; "
